@@ -46,6 +46,9 @@ def run(repo, rep):
     rep.clause("C09-a", "quantise_scale: on every path the (multiplier, shift) pair denotes significand * 2^exponent (power-of-two bookkeeping agrees), the shift is range-guarded and out-of-range scales give (0, 16); reduced form keeps the pair consistent and saturates at 32767; the pooling divisor is rounded up (scale * n >= 2^shift) for every window size")
     rep.clause("C09-b", "where Vela widens float32 scales to double, the widening is applied to each scale before the arithmetic (never to a float32 result)")
     rep.clause("C09-c", "add/sub derivations agree: advanced calls simplified with (min, max, output, input_shift), input_shift = 20 for 8 bit else 15, OPa iff input1 < input2, and the generator swaps the operand exactly under reversed_operands")
+    rep.clause("C09-d", "rounding mode: round_away_zero (significand rounding of quantise_scale) rounds half away from zero like the reference's std::round; the 8-bit equal-scale add/sub "
+               "leaves the reference (advanced, left shift 20) derivation only when the low 12 bits of the OFM multiplier are zero")
+    rep.clause("C09-e", "packed scale records are cached under a key whose ifm/ofm scale components are read by the same accessors as the scales the records are derived from")
     rep.undecided("relative error bounds, equality with the TFLite derivation for all real scales")
     sc = repo.mod("scaling")
 
@@ -233,3 +236,72 @@ def run(repo, rep):
         if isinstance(s_, ast.Assign) and isinstance(s_.value, ast.Call) and (call_name(s_.value) or "").startswith("scaling.quantise"):
             rep.check(norm(s_.targets[0]) == "(scale, shift)", "C09-c", f"{GEN}:generate_ofm_scaling_for_pooling", f"{call_name(s_.value)} unpacked as (scale, shift)", norm(s_.targets[0]))
     rep.floor("C09-c", 18)
+
+    # ---------------------------------------------------------------- d: rounding mode, bypass of the reference derivation
+    from .shared import round_half_away
+
+    round_half_away(repo, rep, "C09-d")
+    qs_ = sc.func("quantise_scale")
+    rz = [c_ for c_ in calls_in(qs_) if call_name(c_) == "round_away_zero"]
+    rep.check(len(rz) == 1 and "significand" in norm(rz[0]), "C09-d", f"{SC}:quantise_scale", "the Q31 significand is rounded with round_away_zero", "; ".join(norm(c_) for c_ in rz))
+    site = f"{GEN}:generate_scaling_for_elementwise"
+    same = [n_ for n_ in ast.walk(ge) if isinstance(n_, ast.If) and norm(n_.test) in ("input_scale == input2_scale", "input2_scale == input_scale")]
+    if len(same) != 1:
+        raise AnalysisError("8-bit equal-input-scale branch of generate_scaling_for_elementwise not found")
+    asg = [s_ for s_ in same[0].body if isinstance(s_, ast.Assign) and norm(s_.targets[0]) == "use_advanced_scaling"]
+    ok = len(asg) == 1
+    detail = "the branch does not decide use_advanced_scaling (default False: the simplified derivation is always used)"
+    if ok:
+        v = asg[0].value
+        detail = norm(v)
+        if isinstance(v, ast.Constant):
+            ok = v.value is True
+        else:
+            ok = False
+            if isinstance(v, ast.Compare) and len(v.ops) == 1 and isinstance(v.ops[0], ast.NotEq) and try_fold(v.comparators[0]) == 0 and isinstance(v.left, ast.BinOp) and isinstance(v.left.op, ast.BitAnd):
+                for x_, m_ in ((v.left.left, v.left.right), (v.left.right, v.left.left)):
+                    mask = try_fold(m_)
+                    if isinstance(mask, int) and "ofm_scale" in norm(x_):
+                        ok = mask & 0xFFF == 0xFFF
+                        detail = f"{norm(v)}: mask {mask:#x} leaves multiplier bits {0xFFF & ~mask:#x} unchecked; with any of them set the simplified triple (shift 16) differs from the reference derivation"
+    rep.check(ok, "C09-d", site, "8-bit add/sub with equal input scales uses the simplified triple only if (OFM multiplier & 0xFFF) == 0", detail)
+    rep.floor("C09-d", 3)
+
+    # ---------------------------------------------------------------- e: key of cached scale records
+    wc = repo.mod("weight_compressor")
+    WCF = "ethosu/vela/weight_compressor.py"
+    enc = wc.func("encode_weight_and_scale_tensor")
+    prep = [f_ for f_ in wc.functions.values() if f_.name != "encode_weight_and_scale_tensor" and any(isinstance(s_, ast.Assign) and norm(s_.targets[0]) == "quantised_scales" for s_ in ast.walk(f_))]
+    if len(prep) != 1:
+        raise AnalysisError("scale derivation function (assigning quantised_scales) not found in weight_compressor")
+    prep = prep[0]
+
+    def accessor(fn, name):
+        out = []
+        for s_ in ast.walk(fn):
+            if isinstance(s_, ast.Assign) and norm(s_.targets[0]) == name:
+                cs_ = [call_name(c_) for c_ in calls_in(s_.value) if (call_name(c_) or "").startswith("_get_")]
+                at = [a_.attr for a_ in ast.walk(s_.value) if isinstance(a_, ast.Attribute) and a_.attr.startswith("scale")]
+                out.append((tuple(cs_), tuple(at)))
+        return out
+
+    for nm in ("ifm_scale", "ofm_scale"):
+        a, b = accessor(prep, nm), accessor(enc, nm)
+        rep.check(len(a) == 1 and a == b and a[0][0], "C09-e", f"{WCF}:encode_weight_and_scale_tensor", f"key component `{nm}` is read like `{nm}` in {prep.name} ({a[0][0][0] if a and a[0][0] else '?'}(...).scale_f32)",
+                  f"derivation reads {a}, key reads {b}: records derived from one scale are cached under another")
+    scc = [s_ for s_ in ast.walk(enc) if isinstance(s_, ast.Assign) and norm(s_.targets[0]) == "scc"]
+    fields = None
+    for s_ in wc.tree.body:
+        if isinstance(s_, ast.Assign) and norm(s_.targets[0]) == "ScaleCompressionConfig" and call_name(s_.value) == "namedtuple":
+            fields = try_fold(s_.value.args[1])
+    ok = len(scc) == 1 and fields is not None and call_name(scc[0].value) == "ScaleCompressionConfig" and len(scc[0].value.args) == len(fields)
+    if ok:
+        for fld, a_ in zip(fields, scc[0].value.args):
+            t = norm(a_)
+            rep.check(t == fld or (fld == "scale_value_id" and t.endswith("scale_tens.value_id")), "C09-e", f"{WCF}:encode_weight_and_scale_tensor", f"key field {fld} <- {t}", "field receives another quantity")
+    else:
+        raise AnalysisError("ScaleCompressionConfig construction not recognised")
+    hit = [n_ for n_ in ast.walk(enc) if isinstance(n_, ast.If) and "scale_compression_config" in norm(n_.test)]
+    rep.check(len(hit) == 1 and norm(hit[0].test) in ("tens_cached.scale_compression_config == scc", "scc == tens_cached.scale_compression_config"), "C09-e", f"{WCF}:encode_weight_and_scale_tensor",
+              "cached scale records are reused only when the whole scale key is equal", norm(hit[0].test) if hit else "")
+    rep.floor("C09-e", 6)
